@@ -509,6 +509,61 @@ def server_mcast_case(exe, r, run, stats, witness):
     return w, ("server-mcast", nstart, len(first))
 
 
+def same_token_case(exe, r, run, stats, witness):
+    """Confirmables that share a token (an application refreshes or cancels an observation
+    under the token it registered with) on a session with NSTART 1: the later ones are held
+    while the first is in flight.  The peer acknowledges or resets what it received.  Every
+    one of them is transmitted (its own message id) or reported by a NACK - a Reset for the
+    one in flight says nothing about the ones still held"""
+    k = r.choice([2, 2, 3, 4])
+    w = world.World(exe, seed=r.getrandbits(30))
+    sim = world.Sim(w, latency=1)
+    witness["script"] = w.script
+    sim.add_node(0)
+    sim.cmd("sess 0 0 udp %s nstart=1" % (PEER % 1))
+    fate = [r.choice(["ack", "rst", "rst", "piggy"]) for _ in range(k)]
+    witness["same_token"] = {"messages": k, "peer_answers": fate}
+    seen = []           # message ids in order of first appearance
+
+    def peer(sm, frm, to, data):
+        typ, code, mid = hdr(data)
+        if typ != 0:
+            return
+        if mid not in seen:
+            seen.append(mid)
+        f = fate[min(seen.index(mid), k - 1)]
+        d = r.choice([1, 5, 300])
+        if f == "rst":
+            sm.inject(to, frm, empty(3, mid), d)
+        elif f == "piggy":
+            sm.inject(to, frm, cw.encode(cw.msg(0x45, type=2, mid=mid, token=b"\x77\x01",
+                                                payload=b"r"), "udp"), d)
+        else:
+            sm.inject(to, frm, empty(2, mid), d)
+    sim.peers[PEER % 1] = peer
+    refused = 0
+    for i in range(k):
+        obs = "" if i else "6=,"
+        evs = sim.cmd("send 0 0 type=0 code=1 token=7701 opts=%s11=61" % obs)
+        if any(e["e"] == "sent" and e.get("mid", 0) == -1 for e in evs):
+            refused += 1
+        if r.random() < 0.3:
+            sim.run(until=sim.elapsed() + r.choice([1, 3]), quiesce=False)
+    sim.run(horizon=400000)
+    nacks = sum(1 for e in sim.log if e["e"] == "nack" and e.get("n") == 0 and
+                e.get("tok") == "7701" and e.get("reason") in (0, 1))
+    # a Reset NACK belongs to a message that WAS transmitted; what must add up is: every
+    # accepted submission shows up on the wire under its own message id, or is NACKed unsent
+    sent_mids = len(seen)
+    stats["same_token_cases"] = stats.get("same_token_cases", 0) + 1
+    if sent_mids + 0 < k - refused and sent_mids + nacks < k - refused:
+        run.violation("held-message-lost/same-token", witness,
+                      "%d Confirmables with one token submitted (NSTART 1, %d refused by "
+                      "coap_send), peer answers %r: %d message ids reached the wire, %d NACKs"
+                      % (k, refused, fate, sent_mids, nacks))
+    return w, ("same-token", k, tuple(fate))
+
+
 def work(job):
     items, exe = job
     run = common.Run("C08", "quick", "exploration")
@@ -523,6 +578,12 @@ def work(job):
         try:
             if it % 16 == 5:
                 w, sig = server_mcast_case(exe, r, run, stats, witness)
+                world.teardown_check(run, "C08", w, witness)
+                sigs.add(sig)
+                n += 1
+                continue
+            if it % 16 == 13:
+                w, sig = same_token_case(exe, r, run, stats, witness)
                 world.teardown_check(run, "C08", w, witness)
                 sigs.add(sig)
                 n += 1
